@@ -8,12 +8,13 @@ States are linear: whoever holds a state may mutate it; every branch point forks
 import ast
 import builtins as _pybuiltins
 import time
+import os
 import z3
 
 from .values import *          # noqa
 from . import loader
 
-FEAS_TIMEOUT_MS = 1500
+FEAS_TIMEOUT_MS = int(os.environ.get("VERIF_FEAS_MS", "400"))
 
 
 class Frame:
@@ -298,6 +299,13 @@ class Engine:
                 return ov
         d = mod.defs.get(name)
         if d is None:
+            for sm in mod.stars:
+                m2 = loader.load_module(sm)
+                if m2 is not None and not name.startswith('_'):
+                    v = self.module_global(m2, name, st)
+                    if v is not _MISSING:
+                        self.module_cache[key] = v
+                        return v
             return _MISSING
         if d[0] == 'func':
             v = FuncV(d[1])
@@ -466,8 +474,11 @@ class Engine:
         """fork on the alternatives of a lazily typed field; returns the list of states"""
         lz = st.heap[ref.oid].fields[attr]
         outs = []
-        for i, (tname, v) in enumerate(lz.alts):
-            s1 = st if i == len(lz.alts) - 1 else st.fork()
+        feas = [i for i in range(len(lz.alts)) if self.feasible(st, lz.sel == i)]
+        for n_, i in enumerate(feas):
+            tname, v = lz.alts[i]
+            s1 = st if n_ == len(feas) - 1 else st.fork()
+            s1.pc.append(lz.sel == i)
             if v is ABSENT:
                 del s1.heap[ref.oid].fields[attr]
             else:
